@@ -7,7 +7,8 @@
    join_rows), Spec/MapStreamSpec.v (decode / offsets_of for indexed strings). *)
 From Coq Require Import ZArith List Bool Lia Permutation.
 From EV Require Import Res Arr Join JoinSpec JoinMain MapStream MapStreamSpec SessionMerge SessionMergeSpec
-  SessionMergeBase SessionMergeLeft SessionMergeTop SessionMergeIndex SessionMergePandas.
+  SessionMergeBase SessionMergeLeft SessionMergeTop SessionMergeIndex SessionMergePandas
+  SessionMergeInner SessionMergeSwap SessionMergeInnerTop SessionMergeJoin.
 Import ListNotations.
 Open Scope Z_scope.
 
@@ -26,6 +27,47 @@ Example left_map_kernels_hyps :
   sorted [1;1;3;4;4] /\ ssorted [0;1;4;7] /\
   gen_left_map false [1;1;3;4;4] [0;1;4;7] [0;0;0;0;0] (-1) = Ok ([1;1;-1;2;2], true).
 Proof. split; [apply sortedb_sorted; reflexivity|]. split; [apply ssortedb_ssorted; reflexivity|reflexivity]. Qed.
+
+(* FULL.  ordered_inner_map_result_size on sorted keys (duplicates on both sides allowed) is the number of
+   matching pairs. *)
+Theorem inner_result_size_correct : forall L R, sorted L -> sorted R ->
+  ordered_inner_map_result_size L R = Ok (len (inner_join L R)).
+Proof. intros L R HL HR. exact (inner_result_size_correct_gen L R 0 HL HR). Qed.
+Print Assumptions inner_result_size_correct.
+
+(* FULL.  ordered_inner_map (IGen: duplicates on both sides), ordered_inner_map_left_unique (ILU: left key
+   strictly increasing) and ordered_inner_map_both_unique (IBU), buffers of the result size: the two buffers
+   receive the left and the right row numbers of the matching pairs in (left,right) order; no out-of-bounds
+   write, termination. *)
+Theorem inner_map_kernels_correct : forall k L R l2i r2i, sorted L -> sorted R ->
+  (k <> IGen -> ssorted L) -> (k = IBU -> ssorted R) ->
+  len l2i = len (inner_join L R) -> len r2i = len (inner_join L R) ->
+  ordered_inner_map_k k L R l2i r2i = Ok (map fst (inner_join L R), map snd (inner_join L R)).
+Proof. intros k L R l2i r2i HL HR. exact (inner_map_correct_gen L R 0 HL HR k l2i r2i). Qed.
+Print Assumptions inner_map_kernels_correct.
+
+Example inner_map_kernels_hyps :
+  sorted [1;1;2;4] /\ sorted [1;1;3;4] /\
+  ordered_inner_map_k IGen [1;1;2;4] [1;1;3;4] [0;0;0;0;0] [0;0;0;0;0] = Ok ([0;0;1;1;3], [0;1;0;1;3]).
+Proof. split; [apply sortedb_sorted; reflexivity|]. split; [apply sortedb_sorted; reflexivity|reflexivity]. Qed.
+
+(* FULL.  "inner results list exactly the matching pairs": membership and absence of repetitions of the
+   specification list itself, for keys in any order. *)
+Theorem inner_join_lists_exactly_the_matching_pairs : forall L R i j,
+  In (i, j) (inner_join L R) <-> (0 <= i < len L /\ 0 <= j < len R /\ nthZ L i = nthZ R j).
+Proof. exact inner_join_exactly_matching. Qed.
+Print Assumptions inner_join_lists_exactly_the_matching_pairs.
+
+Theorem inner_join_has_no_duplicates : forall L R, NoDup (inner_join L R).
+Proof. exact inner_join_no_duplicates. Qed.
+Print Assumptions inner_join_has_no_duplicates.
+
+(* FULL.  Sorted left key, unique sorted right key: listing the pairs from the right side (what
+   ordered_merge_inner does for left_unique=False, right_unique=True) gives the same list. *)
+Theorem inner_join_from_the_other_side : forall L R, sorted L -> ssorted R ->
+  inner_join L R = map swap (inner_join R L).
+Proof. exact inner_join_swap. Qed.
+Print Assumptions inner_join_from_the_other_side.
 
 (* ================================================================== ordered_merge_left / ordered_merge_right *)
 (* FULL.  Every in-memory argument form (ndarray or field keys and payloads; no sinks, zero-initialised ndarray
@@ -182,6 +224,46 @@ Theorem ordered_merge_left_streamable_orig_refuted :
     = Ok (mk_oml None (Some [[101;0]]) None).
 Proof. exact oml_streamable_orig_witness. Qed.
 Print Assumptions ordered_merge_left_streamable_orig_refuted.
+
+(* ================================================================== ordered_merge_inner *)
+(* FULL.  Every truthful flag combination (4), every argument form (ndarray / zero-initialised ndarray sinks /
+   fields / field sinks), sorted keys with duplicates wherever the flags allow them: the call succeeds; the
+   returned pair of tuples (no sinks) or the sinks hold inner_payload_l of every left source and
+   inner_payload_r of every right source. *)
+Theorem ordered_merge_inner_correct : forall L R lsrcs rsrcs lu ru,
+  lsrcs <> [] -> rsrcs <> [] -> sorted L -> sorted R ->
+  (lu = true -> ssorted L) -> (ru = true -> ssorted R) ->
+  (forall s, In s lsrcs -> len s = len L) -> (forall s, In s rsrcs -> len s = len R) ->
+  len L <= INVALID_INDEX -> len R <= INVALID_INDEX ->
+  forall fm ls0 rs0,
+  (fm = FArrSink -> ls0 = zero_inner_sinks L R lsrcs /\ rs0 = zero_inner_sinks L R rsrcs) ->
+  ordered_merge_inner L R lsrcs rsrcs fm ls0 rs0 lu ru =
+  Ok (match fm with FArr | FFld => RPair (map (inner_payload_l 0 L R) lsrcs) (map (inner_payload_r 0 L R) rsrcs)
+                  | _ => RNone end,
+      match fm with FArr | FFld => None | _ => Some (map (inner_payload_l 0 L R) lsrcs) end,
+      match fm with FArr | FFld => None | _ => Some (map (inner_payload_r 0 L R) rsrcs) end).
+Proof. exact omi_correct. Qed.
+Print Assumptions ordered_merge_inner_correct.
+
+Example ordered_merge_inner_nonvacuous :     (* left key with duplicates, right key unique: the swapped kernel *)
+  ordered_merge_inner [1;1;2;4] [1;3;4] [[10;20;30;40]] [[5;6;7]] FArr [] [] false true
+  = Ok (RPair [[10;20;40]] [[5;5;7]], None, None).
+Proof. vm_compute. reflexivity. Qed.
+
+(* ================================================================== join *)
+(* FULL.  Session.join(destination_pkey of n rows, fkey_indices, values_to_join): for foreign-key indices that
+   are destination rows or invalid markers (>= INVALID_INDEX) and one joined value per span of equal adjacent
+   indices, destination row k receives the value of the LAST span whose index is k, 0 when there is none. *)
+Theorem join_correct : forall n fk vals,
+  0 <= n -> length vals = length (run_heads fk) ->
+  (forall k, In k fk -> k < INVALID_INDEX -> 0 <= k < n) ->
+  session_join n fk vals = Ok (join_rows INVALID_INDEX n fk vals).
+Proof. exact session_join_correct_gen. Qed.
+Print Assumptions join_correct.
+
+Example join_example :      (* the repository's test vector *)
+  session_join 12 [0;1;1;2;4;5;5;6;8;9;9;10] [1;2;1;1;2;1;1;2;1] = Ok [1;2;1;0;1;2;1;0;1;2;1;0].
+Proof. vm_compute. reflexivity. Qed.
 
 (* ================================================================== get_index *)
 (* FULL.  For every target (any order, duplicates allowed, fewer than 2^62 rows) and every foreign key column:
